@@ -555,6 +555,7 @@ func runC08(p *Program, r *Report) {
 			}
 		}
 	}
+	cReasons(p, r, "C08.reasons")
 	c04eom(p, r, "C08.eom")
 	c07funnel(p, r, "C08.wrap")
 	c03taint(p, r, "C08.mem")
@@ -666,6 +667,8 @@ func runC18(p *Program, r *Report) {
 			return true, ""
 		})
 	}
+	cReasons(p, r, "C18.reasons")
+	armingRules(p, r, true, false)
 	c04adapters(p, r, "C18.msgend")
 	if fn := p.Func("netConn.Read"); fn != nil {
 		p.forAllPaths(r, "C18.msgend", fn, "empty reads skipped", Opts{Unroll: 2}, "netConn.Read holds readMu (forceLock + deferred unlock) and loops while read returned (0, nil); it returns as soon as n > 0 or err != nil, with read's values", func(pa *Path) (bool, string) {
@@ -946,6 +949,7 @@ func runC19(p *Program, r *Report) {
 			return false, "returned error does not wrap the unmarshal error with %w"
 		})
 	}
+	cReasons(p, r, "C19.reasons")
 	c07ws(p, r, "C19.alias")
 	c07get(p, r, "C19.pool")
 	if c, ok := p.Main.Members["StatusInvalidFramePayloadData"].(*ssa.NamedConst); ok {
